@@ -21,7 +21,7 @@ theorem not_keyIn_iff (ids : List String) (keys : List (List Value)) (r : Row) :
 /-! ## union -/
 
 theorem union_spec (env : Env) (a b : DExpr) (x y : DS) (hx : evalD env a = .ok x) (hy : evalD env b = .ok y) :
-    evalD env (.union a b) =
+    evalD env (.union a b) = if y.ids != x.ids then .error .unsupported else
       .ok (DS.mk x.ids x.meas (x.rows ++ (y.rows.filter (fun r => !keyIn x.ids x.keys r)).map (·.proj x.comps))) := by
   simp only [evalD, hx, hy, bind, Except.bind, pure, Except.pure]
 
@@ -31,6 +31,8 @@ theorem union_rows (env : Env) (a b : DExpr) (x y res : DS) (hx : evalD env a = 
     (h : evalD env (.union a b) = .ok res) (r : Row) :
     r ∈ res.rows ↔ r ∈ x.rows ∨ ∃ r0 ∈ y.rows, r0.key x.ids ∉ x.keys ∧ r = r0.proj x.comps := by
   rw [union_spec env a b x y hx hy] at h
+  split at h
+  · cases h
   cases h
   simp only [List.mem_append, List.mem_map, List.mem_filter]
   constructor
@@ -78,6 +80,8 @@ theorem union_nodup (env : Env) (a b : DExpr) (x y res : DS) (hx : evalD env a =
     (res.rows.map (·.key x.ids)).Nodup := by
   have hsub : ∀ i ∈ x.ids, i ∈ x.comps := fun i hi => List.mem_append_left _ hi
   rw [union_spec env a b x y hx hy] at h
+  split at h
+  · cases h
   cases h
   simp only [List.map_append, List.map_map]
   have hcongr : (List.map ((fun r => Row.key r x.ids) ∘ fun r => Row.proj r x.comps)
@@ -121,7 +125,10 @@ theorem symdiff_iff (env : Env) (a b : DExpr) (x y res : DS) (hx : evalD env a =
     (h : evalD env (.symdiff a b) = .ok res) (r : Row) :
     r ∈ res.rows ↔ (r ∈ x.rows ∧ ¬ hasKey x.ids y r) ∨
                     (∃ r0 ∈ y.rows, r0.key x.ids ∉ x.keys ∧ r = r0.proj x.comps) := by
-  simp only [evalD, hx, hy, bind, Except.bind, pure, Except.pure, Except.ok.injEq] at h
+  simp only [evalD, hx, hy, bind, Except.bind, pure, Except.pure] at h
+  split at h
+  · cases h
+  simp only [Except.ok.injEq] at h
   subst h
   simp only [List.mem_append, List.mem_filter, List.mem_map, hasKey, Bool.not_eq_true', not_keyIn_iff]
   constructor
@@ -138,8 +145,9 @@ theorem setop_struct (env : Env) (a b : DExpr) (x y res : DS) (hx : evalD env a 
          evalD env (.setdiff a b) = .ok res ∨ evalD env (.symdiff a b) = .ok res) :
     res.ids = x.ids ∧ res.meas = x.meas := by
   rcases h with h | h | h | h <;>
-    simp only [evalD, hx, hy, bind, Except.bind, pure, Except.pure, Except.ok.injEq] at h <;>
-    subst h <;> exact ⟨rfl, rfl⟩
+    simp only [evalD, hx, hy, bind, Except.bind, pure, Except.pure] at h <;>
+    (try split at h) <;> (try (cases h; done)) <;>
+    (simp only [Except.ok.injEq] at h; subst h; exact ⟨rfl, rfl⟩)
 
 /-! ## n-ary forms: every operand counts (any number of operands) -/
 
